@@ -215,7 +215,7 @@ var menus = map[string][]string{
 	"reader":      {"fetch", "fetch", "read", "setOffset", "setOffsetAt", "offset", "lag", "readLag", "stats", "config", "close"},
 	"groupreader": {"fetch", "fetch", "commit", "commit", "read", "offset", "lag", "stats", "config", "close"},
 	"conn": {"setDeadline", "setReadDeadline", "setWriteDeadline", "offset", "seekStart", "seekEnd", "seekAbs", "seekCur", "firstOffset", "lastOffset", "readOffsets",
-		"write", "writeCompressed", "readBatch", "readMessage", "read", "partitions", "brokers", "controller", "apiVersions", "broker", "addrs", "close"},
+		"write", "writeCompressed", "readBatch", "readMessage", "read", "partitions", "brokers", "controller", "apiVersions", "broker", "addrs", "createTopics", "deleteTopics", "setRequiredAcks", "close"},
 	"batch":    {"read", "read", "readMessage", "readMessage", "offset", "hwm", "throttle", "partition", "err", "close"},
 	"client":   {"metadata", "listOffsets", "produce", "fetch", "createTopics", "offsetFetch", "offsetCommit", "listGroups", "describeGroups", "apiVersions", "consumerOffsets", "closeIdle", "envAddBroker", "envDropBroker", "envMoveLeader"},
 	"balancer": {"balance", "balance", "balanceNilKey", "balanceOtherPartitions"},
@@ -223,7 +223,7 @@ var menus = map[string][]string{
 }
 
 var variants = map[string][]string{
-	"writer":      {"sync", "async", "sync-hash", "async-leastbytes"},
+	"writer":      {"sync", "async", "sync-hash", "async-leastbytes", "sync-multitopic"},
 	"reader":      {"plain"},
 	"groupreader": {"sync-commit", "interval-commit"},
 	"conn":        {"leader"},
@@ -323,6 +323,7 @@ func setup(tb ev.TB, p Program) *env {
 	e.nw = memnet.New()
 	e.cl = fakecluster.New(e.nw, 1)
 	e.cl.CreateTopic("t", 2)
+	e.cl.CreateTopic("t2", 1)
 	for part := int32(0); part < 2; part++ {
 		if p.Records > 0 {
 			switch {
@@ -349,6 +350,8 @@ func setup(tb ev.TB, p Program) *env {
 		case "async-leastbytes":
 			e.w.Async = true
 			e.w.Balancer = &kafka.LeastBytes{}
+		case "sync-multitopic":
+			e.w.Topic = "" // the topic travels with each message
 		}
 	case "reader":
 		e.r = kafka.NewReader(kafka.ReaderConfig{Brokers: []string{addr}, Topic: "t", Partition: 0, Dialer: e.dialer(), MinBytes: 1, MaxBytes: 1 << 20, MaxWait: 50 * time.Millisecond,
@@ -435,7 +438,11 @@ func (e *env) exec(thread int, op Op) {
 		return context.WithTimeout(context.Background(), time.Duration(ms)*time.Millisecond)
 	}
 	msg := func(i int) kafka.Message {
-		return kafka.Message{Key: []byte(fmt.Sprintf("t%d-%d", thread, i)), Value: []byte(fmt.Sprintf("written by thread %d (%d)", thread, op.Arg))}
+		m := kafka.Message{Key: []byte(fmt.Sprintf("t%d-%d", thread, i)), Value: []byte(fmt.Sprintf("written by thread %d (%d)", thread, op.Arg))}
+		if e.p.Subject == "writer" && e.p.Variant == "sync-multitopic" {
+			m.Topic = []string{"t", "t2"}[(op.Arg+i)%2]
+		}
+		return m
 	}
 	// environment events (not library calls): the cluster changes while the program runs
 	switch op.Name {
@@ -582,6 +589,12 @@ func (e *env) exec(thread int, op Op) {
 		case "addrs":
 			c.LocalAddr()
 			c.RemoteAddr()
+		case "createTopics":
+			c.CreateTopics(kafka.TopicConfig{Topic: fmt.Sprintf("made-%d", op.Arg%3), NumPartitions: 1, ReplicationFactor: 1})
+		case "deleteTopics":
+			c.DeleteTopics(fmt.Sprintf("made-%d", op.Arg%3))
+		case "setRequiredAcks":
+			c.SetRequiredAcks([]int{-1, 1}[op.Arg%2])
 		case "close":
 			c.Close()
 		}
